@@ -1,7 +1,7 @@
 """Per-property run definitions (tiers, case counts, floors)."""
 import vdriver as V
 
-SETUP_BUILDS = [('asan', ('pbt', 'replay')), ('plain', ('replay',)), ('tsan', ('mt',))]
+SETUP_BUILDS = [('asan', ('pbt', 'replay')), ('plain', ('replay',)), ('tsan', ('mt',)), ('fuzz', ('fuzz_c16', 'fuzz_c02'))]
 RUNNERS = {}
 REPLAYERS = {}
 
@@ -60,7 +60,8 @@ FILE_ASSUME = ['files are little-endian, float format, header consistent with PO
 
 @reg('C02')
 def c02(tier):
-    return V.generic_pbt('C02', tier, n_quick=20000, n_thorough=150000, floor=100, assumptions=FILE_ASSUME)
+    return V.generic_pbt('C02', tier, n_quick=20000, n_thorough=150000, floor=100, assumptions=FILE_ASSUME,
+                         fuzz=[{'target': 'fuzz_c02', 'seeds': [], 'budget': (10, 300), 'jobs': (8, 16), 'max_len': 600}])
 
 @reg('C04')
 def c04(tier):
@@ -183,7 +184,9 @@ def c16(tier):
     import shutil
     d, paths = c16_sweep_cases(tier)
     try:
+        seeds = ['property: C16\n' + b for b in C16_BASES]
         return V.generic_pbt('C16', tier, n_quick=40000, n_thorough=400000, floor=500, extra_cases=paths,
+                             fuzz=[{'target': 'fuzz_c16', 'seeds': seeds, 'budget': (12, 600), 'jobs': (8, 16), 'max_len': 8192}],
                              assumptions=['work bound: at most 64 x file size + 2^20 read calls (hook H1, deterministic, no wall clock); single allocations above 1 GiB abort under ASan',
                                           'inputs whose header/parameters declare frame data far beyond the file size (known finding KF-D17) are recognised through hook H2, skipped and counted'],
                              extra_cov={'sweep_cases': len(paths), 'sweep': 'every truncation length and every offset x {0,1,0x7F,0x80,0xFF} of %d base files' % (3 if tier == 'thorough' else 2)})
@@ -210,7 +213,7 @@ C17_LIMITS = {
     'channels': ('limit 7 %d\nprate 8\narate 1\nlimit 8 2\n', 255, [254, 255, 256, 300]),
     'subframes-x-channels': ('limit 7 255\nlimit 12 %d\nlimit 8 1\n', 257, [256, 257, 258, 300]),
     'frames': ('declp 1 0\nprate 8\nlimit 8 %d\n', 32767, [32766, 32767, 32768, 40000]),
-    'parameter-blocks': ('limit 9 %d\n', 258, [250, 258, 262, 300]),
+    'parameter-blocks': ('limit 9 %d\n', 258, [250] + list(range(254, 270)) + [300]),
 }
 
 def c17_cases(tier):
@@ -642,6 +645,17 @@ def c19(tier):
                                       stdout=subprocess.DEVNULL, stderr=subprocess.DEVNULL, env=V.base_env({'VERIF_TIER': tier})))
     for p in procs:
         p.wait()
+    # a fifth of the generated files additionally carry arbitrary bytes in the reserved header words (no layout field lives there)
+    import random
+    rnd = random.Random(V.seed())
+    for cpath in sorted(glob.glob(os.path.join(wd, 'corpus-C02', '*.case')))[::5]:
+        with open(cpath) as f:
+            lines = f.read().splitlines()
+        if 'load' in lines and not any(l.startswith('flayout') and l.split()[1] != '0' for l in lines):
+            i = lines.index('load')
+            pokes = ['poke %d %d' % (rnd.choice(list(range(24, 294)) + list(range(468, 512))), rnd.randrange(1, 256)) for _ in range(rnd.randrange(1, 6))]
+            with open(cpath, 'w') as f:
+                f.write('\n'.join(lines[:i] + pokes + lines[i:]) + '\n')
     cases = sorted(glob.glob(os.path.join(wd, 'corpus-*', '*.case'))) + V.corpus_cases('C04') + V.corpus_cases('C19')
     results = _c19_traces(traces, cases, wd)
     per_cfg = {}
